@@ -2,13 +2,32 @@ package main
 
 import (
 	"fmt"
-	"go/token"
-	"strings"
+	"go/types"
 
 	"golang.org/x/tools/go/ssa"
 
 	"omnilint/core"
 )
+
+func aliasParam(v ssa.Value, seen map[ssa.Value]bool) *ssa.Parameter {
+	if seen[v] {
+		return nil
+	}
+	seen[v] = true
+	switch x := v.(type) {
+	case *ssa.Parameter:
+		return x
+	case *ssa.Phi:
+		for _, e := range x.Edges {
+			if p := aliasParam(e, seen); p != nil {
+				return p
+			}
+		}
+	case *ssa.ChangeType:
+		return aliasParam(x.X, seen)
+	}
+	return nil
+}
 
 func main() {
 	c, err := core.Load("/repo", core.Variant{Name: "default"})
@@ -22,22 +41,19 @@ func main() {
 		}
 		for _, b := range f.Blocks {
 			for _, in := range b.Instrs {
-				for _, op := range in.Operands(nil) {
-					g, ok := (*op).(*ssa.Global)
-					if !ok || !core.InRepo(g.Pkg.Pkg) || strings.HasSuffix(g.Name(), "$guard") {
-						continue
+				if mu, ok := in.(*ssa.MapUpdate); ok {
+					if p := aliasParam(mu.Map, map[ssa.Value]bool{}); p != nil {
+						fmt.Printf("MAPUPD %s %s param %s\n", c.Position(core.InstrPos(in)), core.FuncKey(f), p.Name())
 					}
-					switch x := in.(type) {
-					case *ssa.UnOp:
-						if x.Op == token.MUL {
-							continue
-						}
-					case *ssa.Store:
-						if x.Addr == ssa.Value(g) {
-							continue
+				}
+				if st, ok := in.(*ssa.Store); ok {
+					if ia, ok := st.Addr.(*ssa.IndexAddr); ok {
+						if _, isSl := ia.X.Type().Underlying().(*types.Slice); isSl {
+							if p := aliasParam(ia.X, map[ssa.Value]bool{}); p != nil {
+								fmt.Printf("ELEMST %s %s param %s\n", c.Position(core.InstrPos(in)), core.FuncKey(f), p.Name())
+							}
 						}
 					}
-					fmt.Printf("%s %s: %T %s (global %s)\n", c.Position(core.InstrPos(in)), core.FuncKey(f), in, in, g.Name())
 				}
 			}
 		}
